@@ -74,14 +74,32 @@ def worker_init():
     faulthandler.enable(file=open(os.path.join(FAULT_DIR, f"{os.getpid()}.log"), "w"))
 
 
+_WORKER_HISTORY = []  # (run_seed, tier) of the runs this process executed before, in order
+
+
 def run_one(prop, run_seed, tier, scenario=None):
     from . import seams
 
     seams.install(probe=not os.environ.get("BIOSIM_NO_PROBE"))
     seams.reset_faults()
     m = load_machine(prop)
+    if scenario is not None and scenario.get("worker_history"):
+        # C19 only: the violation was observed after these runs had been executed in the same
+        # worker process ("what other diagrams were built earlier in the same process")
+        hist = scenario["worker_history"]
+        for hseed, htier in hist:
+            try:
+                seams.reset_faults()
+                m.run(m.gen_scenario(hseed, htier))
+            except Exception:  # noqa: BLE001
+                pass
+        seams.reset_faults()
     sc = scenario if scenario is not None else m.gen_scenario(run_seed, tier)
     res = m.run(sc)
+    if scenario is None:
+        if getattr(m, "NONDETERMINISTIC_REPLAY", False) and res.get("violations") and res.get("trace") is not None and _WORKER_HISTORY:
+            res["trace"]["worker_history"] = list(_WORKER_HISTORY)
+        _WORKER_HISTORY.append((run_seed, tier))
     return res
 
 
@@ -305,7 +323,7 @@ def batch(prop, tier, batch_seed, runs=None, wall=None, workers=None, write_evid
         trace = r["trace"]
         mini = None
         n_min = getattr(batch, "_n_min", 0)
-        if not os.environ.get("BIOSIM_NO_MINIMIZE") and n_min < 3:
+        if not os.environ.get("BIOSIM_NO_MINIMIZE") and n_min < 3 and not trace.get("worker_history"):
             batch._n_min = n_min + 1
             try:
                 with cf.ProcessPoolExecutor(max_workers=1, mp_context=ctx, initializer=worker_init) as ex1:
